@@ -617,7 +617,16 @@ impl Session {
                     frame.stream_id
                 );
                 let mut streams = self.streams.write().await;
-                streams.remove(&frame.stream_id);
+                if let Some(stream) = streams.remove(&frame.stream_id) {
+                    // A stream the peer closes before acknowledging its open can no longer be
+                    // opened: fail the pending open now (no later SYNACK or session teardown
+                    // reaches a stream that is not in the table; it would wait out its timer).
+                    stream
+                        .notify_synack(Err(AnyTlsError::Protocol(
+                            "stream closed by peer".to_string(),
+                        )))
+                        .await;
+                }
                 let mut receive_map = self.stream_receive_tx.write().await;
                 receive_map.remove(&frame.stream_id);
             }
